@@ -1,6 +1,7 @@
 CONSTANTS
   MaxToks = 4
   CloseOnError = TRUE
+  Cap = 0
   Drain = FALSE
 SPECIFICATION Spec
 INVARIANTS TypeOK OrderOK
